@@ -26,7 +26,25 @@ func VerifC08Index() {
 	}
 	a := c11Collection(rep, l)
 	i := nd.Int()
-	out, err := vRender("[{{ a[i] }}]", Bindings{"a": a, "i": i})
+	// the index in every integer width that can hold it
+	var iv any = i
+	switch nd.Choice(6) {
+	case 1:
+		nd.Assume(i >= -128 && i <= 127)
+		iv = int8(i)
+	case 2:
+		nd.Assume(i >= -32768 && i <= 32767)
+		iv = int16(i)
+	case 3:
+		nd.Assume(i >= -(1<<31) && i < 1<<31)
+		iv = int32(i)
+	case 4:
+		iv = int64(i)
+	case 5:
+		nd.Assume(i >= 0)
+		iv = uint64(i)
+	}
+	out, err := vRender("[{{ a[i] }}]", Bindings{"a": a, "i": iv})
 	nd.Assert(err == nil, "index-no-error")
 	n := i
 	if n < 0 {
